@@ -93,12 +93,14 @@ pub fn class_of(v: &[u8]) -> &'static str {
         "lf"
     } else if has(b'\r') {
         "cr"
+    } else if has(b'%') {
+        "percent"
+    } else if v.iter().any(|&c| c < 0x20 || c == 0x7f) {
+        "ctrl"
     } else if has(b'"') {
         "quote"
     } else if has(b'\\') {
         "backslash"
-    } else if has(b'%') {
-        "percent"
     } else if has(b';') {
         "semicolon"
     } else if has(b'=') {
@@ -107,8 +109,6 @@ pub fn class_of(v: &[u8]) -> &'static str {
         "amp"
     } else if has(b',') {
         "comma"
-    } else if v.iter().any(|&c| c < 0x20 || c == 0x7f) {
-        "ctrl"
     } else if v.iter().any(|&c| c >= 0x80) {
         "high"
     } else if v.first() == Some(&b'>') {
@@ -124,6 +124,59 @@ pub fn class_of(v: &[u8]) -> &'static str {
     } else {
         "punct"
     }
+}
+
+/// Class with the GTF escapes first (a value with a quote is a quote case whatever else it holds).
+pub fn class_gtf(v: &[u8]) -> &'static str {
+    if v.contains(&b'"') {
+        "quote"
+    } else if v.contains(&b'\\') {
+        "backslash"
+    } else {
+        class_of(v)
+    }
+}
+
+/// Every non-plain text field of `x` alone in an otherwise plain record (attributes first, the
+/// three text columns last): used to attribute a failure of a multi-deviation record to one field.
+pub fn isolate(x: &GRec, key: &[u8]) -> Vec<GRec> {
+    let mut out = Vec::new();
+    let mut push = |f: &dyn Fn(&mut GRec)| {
+        let mut r = GRec::plain();
+        f(&mut r);
+        out.push(r);
+    };
+    for (t, vals) in &x.attrs {
+        if class_of(t) != "plain" {
+            push(&|r| r.attrs = vec![(t.clone(), vec![b"v".to_vec()])]);
+        }
+        for (i, v) in vals.iter().enumerate() {
+            if class_of(v) != "plain" {
+                if vals.len() == 1 {
+                    push(&|r| r.attrs = vec![(key.to_vec(), vec![v.clone()])]);
+                } else if i == 0 {
+                    push(&|r| r.attrs = vec![(key.to_vec(), vec![v.clone(), b"z".to_vec()])]);
+                } else {
+                    push(&|r| r.attrs = vec![(key.to_vec(), vec![b"z".to_vec(), v.clone()])]);
+                }
+            }
+        }
+    }
+    if class_of(&x.ty) != "plain" {
+        push(&|r| r.ty = x.ty.clone());
+    }
+    if class_of(&x.source) != "plain" {
+        push(&|r| r.source = x.source.clone());
+    }
+    if class_of(&x.seqid) != "plain" {
+        push(&|r| r.seqid = x.seqid.clone());
+    }
+    out
+}
+
+pub fn non_plain_fields(x: &GRec) -> usize {
+    x.attrs.iter().map(|(t, v)| (class_of(t) != "plain") as usize + v.iter().filter(|e| class_of(e) != "plain").count()).sum::<usize>()
+        + [&x.seqid, &x.source, &x.ty].iter().filter(|v| class_of(v) != "plain").count()
 }
 
 /// Rust byte-string literal.
